@@ -195,6 +195,27 @@ def per_character(ctx):
                     pass
                 if any(d in text for d in ";,\r\n\0"):
                     ctx.nontriv(("cookie", where, text))
+    # the other cookie attributes given hostile text: refused when the cookie is set, or nothing of it on the header line
+    hostile = ["lax\r\nSet-Cookie: admin=1", "lax\n", "strict\0", "lax; domain=evil.example", "none\r", "lax\r\n\r\n<html>"]
+    for attr in ("samesite", "path", "domain"):
+        for text in hostile:
+            for pkg, iface in ((W, "wsgi"), (A, "asgi")):
+                r = pkg.Response(200)
+                case = {"cookie_attribute": attr, "text": repr(text), "iface": iface}
+                ctx.count()
+                try:
+                    r.set_cookie("sid", "v", **{attr: text})
+                except (ValueError, TypeError):
+                    ctx.nontriv(("cookie-attr", attr, text, "refused"))
+                    continue
+                res = servers.wsgi_call(r, servers.Req()) if iface == "wsgi" else servers.asgi_call(r, servers.Req())
+                if res.exc is not None:
+                    continue      # refused at emission: nothing went out
+                lines = [v for k, v in res.header_multiset() if k == "set-cookie"]
+                if len(res.header_multiset()) != 2 or len(lines) != 1 or has_ctl(lines[0]) or "evil.example" in lines[0] or "admin" in lines[0]:
+                    ctx.violation(case, "refused, or one clean Set-Cookie line without the injected text", res.header_multiset(),
+                                  "cookie attribute %s is written to the header line unchecked (%r)" % (attr, text[:24]))
+                ctx.nontriv(("cookie-attr", attr, text, "emitted"))
     # redirect targets
     import urllib.parse
     cps = range(0x110000) if ctx.tier == "thorough" else itertools.chain(range(0x3000), range(0xD700, 0xE100), range(0xFF00, 0x10100), range(0x1F600, 0x1F650))
